@@ -385,9 +385,12 @@ Fixpoint re_match (ci : bool) (r : re) (s : str) : bool :=
   | c :: t => re_match ci (deriv ci c r) t
   end.
 
-(* some prefix of s matches r  (Regex::is_match of the un-anchored-at-the-end `^R`) *)
+(* Regex::is_match of the prefix regex `^(?:R)(?:/|$)` (pattern.rs regex_with, commit f55c3e7):
+   some prefix of s matches r and is followed by '/' or by the end of s *)
+Definition at_boundary (s : str) : bool := match s with [] => true | c :: _ => c =? 47 end.
 Fixpoint re_match_prefix (ci : bool) (r : re) (s : str) : bool :=
-  nullable r || match s with [] => false | c :: t => re_match_prefix ci (deriv ci c r) t end.
+  (nullable r && at_boundary s)
+  || match s with [] => false | c :: t => re_match_prefix ci (deriv ci c r) t end.
 
 (* ------------------------------------------------------------------------------------------ *)
 (* regex.rs: get_fixed_prefix / is_partial_match                                                *)
